@@ -1,40 +1,34 @@
 (* DrainBounded.v — exhaustive, kernel-checked exploration of the drain-status protocol for small
    thread populations: every configuration reachable under EVERY schedule is in the explored set
-   (closure checked by computation, soundness by DrainProofs), and every terminal configuration of
-   the set is drained.  The bound (which threads exist initially) is part of each statement; tasks
-   spawned through the executor are explored as they arise. *)
-From stdpp Require Import gmap.
+   (closure checked by computation, soundness by DrainProofs / DrainFast), and every terminal
+   configuration of the set is drained.  The bound (which threads exist initially) is part of each
+   statement; tasks spawned through the executor are explored as they arise.
+   Populations beyond these (three writers; two writers and a CleanUp caller) exhaust 14 GB in this
+   representation (finished threads keep their slots, so interleavings of spawns multiply states). *)
+From stdpp Require Import gmap pmap.
 From Coq Require Import List.
 Import ListNotations.
-From Otter Require Import Drain DrainProofs.
+From Otter Require Import Drain DrainProofs DrainFast.
 
-Definition check (w c fuel : nat) : bool :=
-  match explore fuel [dinit w c] {[dinit w c]} with
-  | Some v => bool_decide (dinit w c ∈ v) && closed v && all_terminals_drained v
-  | None => false
-  end.
-
-Theorem check_sound w c fuel : check w c fuel = true ->
-  forall sched, let s := run_sched (dinit w c) sched in terminal s = true -> drained s = true.
-Proof.
-  unfold check. destruct (explore fuel [dinit w c] {[dinit w c]}) as [v|]; [|intros H; discriminate H].
-  intros H sched. cbv zeta. intros T. apply andb_true_iff in H. destruct H as [H Hd]. apply andb_true_iff in H. destruct H as [H0 Hc].
-  apply bool_decide_eq_true in H0.
-  apply (terminals_drained v (dinit w c) H0 Hc Hd); [|exact T].
-  apply run_sched_reachable. constructor.
-Qed.
-
-(* one writer, and two concurrent writers, each with every maintenance task they spawn *)
-Lemma check_1_0 : check 1 0 500 = true.
+(* one writer; two concurrent writers; one writer racing with an explicit CleanUp caller —
+   each with every maintenance task they spawn *)
+Lemma check_1_0 : check_fast 1 0 500 = true.
 Proof. vm_compute. reflexivity. Qed.
 
-Lemma check_2_0 : check 2 0 2000 = true.
+Lemma check_2_0 : check_fast 2 0 2000 = true.
+Proof. vm_compute. reflexivity. Qed.
+
+Lemma check_1_1 : check_fast 1 1 2000 = true.
 Proof. vm_compute. reflexivity. Qed.
 
 Theorem drained_1_writer : forall sched,
   let s := run_sched (dinit 1 0) sched in terminal s = true -> drained s = true.
-Proof. exact (check_sound 1 0 500 check_1_0). Qed.
+Proof. exact (check_fast_sound 1 0 500 check_1_0). Qed.
 
 Theorem drained_2_writers : forall sched,
   let s := run_sched (dinit 2 0) sched in terminal s = true -> drained s = true.
-Proof. exact (check_sound 2 0 2000 check_2_0). Qed.
+Proof. exact (check_fast_sound 2 0 2000 check_2_0). Qed.
+
+Theorem drained_1_writer_1_cleanup : forall sched,
+  let s := run_sched (dinit 1 1) sched in terminal s = true -> drained s = true.
+Proof. exact (check_fast_sound 1 1 2000 check_1_1). Qed.
